@@ -68,18 +68,20 @@ LazyReadValue(lz, act) ==
     [] act.op = "getnf" -> IntStr(LazyGetNF(lz)[2])
     [] OTHER -> <<>>
 
-\* An instance is enabled when the machine has not failed, the record stays
-\* inside the bound, and (for the cases the property does not pin down) the
-\* situation is one the statement speaks about:
-\*  - a negative index must designate an existing field;
-\*  - "incr" only on fields whose numeric value this module can read.
+\* An instance is enabled when the machine has not failed and the record stays inside the
+\* bound.  "incr" is generated only on fields whose numeric value this module can read.
+\* A negative index that designates no field (before $1) is a no-op in the specification;
+\* the statement does not say whether an implementation may instead report an error there,
+\* so the conformance harness accepts either "unchanged" or "error" for those steps
+\* (NegOutOfRange) -- but never a change to some other field.
+NegOutOfRange(rc, act) ==
+  act.op \in {"setf", "getf", "incr"} /\ act.k < 0 /\ 0 - act.k > RecNF(rc)
+
 Enabled(rc, act, maxNF) ==
   /\ ~rc.err
-  /\ act.op = "setf" => /\ (act.k < 0 => 0 - act.k <= RecNF(rc))
-                        /\ (act.k <= MaxField => act.k <= maxNF)
+  /\ act.op = "setf" => (act.k <= MaxField => act.k <= maxNF)
   /\ act.op = "setnf" => (act.m <= MaxField => act.m <= maxNF)
-  /\ act.op = "getf" => (act.k < 0 => 0 - act.k <= RecNF(rc))
-  /\ act.op = "incr" => /\ act.k >= 1 /\ act.k <= maxNF
+  /\ act.op = "incr" => /\ act.k # 0 /\ act.k <= maxNF
                         /\ IncrOK(RecGet(rc, act.k))
                         /\ SmallNum(RecGet(rc, act.k)) < 100
 =============================================================================
